@@ -12,6 +12,7 @@ use ruma_common::{
 use ruma_macros::EventContent;
 use serde::{
     de::{Deserializer, Error},
+    ser::{SerializeStruct, Serializer},
     Deserialize, Serialize,
 };
 use serde_json::Value as JsonValue;
@@ -84,9 +85,8 @@ impl SyncRoomJoinRulesEvent {
 ///
 /// This type can hold an arbitrary string. To check for values that are not available as a
 /// documented variant here, use its string representation, obtained through `.as_str()`.
-#[derive(Clone, Debug, PartialEq, Eq, Serialize)]
+#[derive(Clone, Debug, PartialEq, Eq)]
 #[cfg_attr(not(ruma_unstable_exhaustive_types), non_exhaustive)]
-#[serde(tag = "join_rule", rename_all = "snake_case")]
 pub enum JoinRule {
     /// A user who wishes to join the room must first receive an invite to the room from someone
     /// already inside of the room.
@@ -112,8 +112,37 @@ pub enum JoinRule {
     Public,
 
     #[doc(hidden)]
-    #[serde(skip_serializing)]
     _Custom(PrivOwnedStr),
+}
+
+impl Serialize for JoinRule {
+    fn serialize<S>(&self, serializer: S) -> Result<S::Ok, S::Error>
+    where
+        S: Serializer,
+    {
+        /// The variants that carry data, with the name of the join rule as tag.
+        #[derive(Serialize)]
+        #[serde(tag = "join_rule", rename_all = "snake_case")]
+        enum JoinRuleWithData<'a> {
+            Restricted(&'a Restricted),
+            KnockRestricted(&'a Restricted),
+        }
+
+        match self {
+            Self::Restricted(restricted) => {
+                JoinRuleWithData::Restricted(restricted).serialize(serializer)
+            }
+            Self::KnockRestricted(restricted) => {
+                JoinRuleWithData::KnockRestricted(restricted).serialize(serializer)
+            }
+            // A join rule that is not known is written back as it was read.
+            _ => {
+                let mut state = serializer.serialize_struct("JoinRule", 1)?;
+                state.serialize_field("join_rule", self.as_str())?;
+                state.end()
+            }
+        }
+    }
 }
 
 impl JoinRule {
